@@ -90,7 +90,7 @@ func NewMarchingCanvas(cubesPerUnit float64) *MarchingCanvas {
 	}
 }
 
-func (d MarchingCanvas) index(x, y, z int) int {
+func (d *MarchingCanvas) index(x, y, z int) int {
 	return (z * marchingSectionSizeSquared) + (y * marchingSectionSize) + x
 }
 
@@ -184,7 +184,9 @@ func (d *MarchingCanvas) addFloat1Range(section *marchingSection, chunkPos, min,
 	}
 
 	index := d.chunkIndex_atomic(section, chunkPos)
+	d.chunkMutex.Lock()
 	data := d.float1Data[index]
+	d.chunkMutex.Unlock()
 
 	for z := min.Z; z < max.Z; z++ {
 		for y := min.Y; y < max.Y; y++ {
